@@ -56,6 +56,11 @@ def frame_cases(tier: str, rng: random.Random) -> List[Dict[str, Any]]:
                                 if variant == "seq_ff" and by == 0:
                                     continue        # the feed-forward acts on another live qubit
                                 out.append(dict(kind="frame", variant=variant, nv=nv, role=role, expect=expect, n=n, bells=list(bells), by=by))
+    # the link is ahead of the program: every response of the request is already waiting when the subroutine starts
+    for n in (3, 4):
+        tuples = list(itertools.product(range(4), repeat=n))
+        for bells in rng.sample(tuples, 24 if tier == "quick" else 120):
+            out.append(dict(kind="frame", variant="post_h", nv=False, role="recv", expect=True, n=n, bells=list(bells), by=0, early=True))
     # a request with a fidelity constraint whose first attempt is rejected (its last pair took too long): the pairs of the
     # rejected attempt are discarded, the pairs of the second attempt (pair numbers n..2n-1) are the ones that count
     for variant in ("retry_post_h", "retry_keep"):
@@ -140,6 +145,9 @@ def _run_frame(item):
             sock.recv_rsp(n, **ek)
         elif variant == "rsp_info":
             sock.recv_rsp_with_info(n, **ek)
+        if c.get("early"):
+            conn.link.stepwise = False
+            conn.link.on_wait()
         try:
             conn.flush()
         except (rig.ControllerFault, rig.Stuck) as exc:
